@@ -16,6 +16,9 @@ checking, another family).  Decided:
   R05.3  nested lists: per list the recorded drilling is len(selected field) * sized height; the list with
          the MINIMUM recorded drilling is chosen, and inside it a field with non-positive excess
          (provenance shared with C01); the loop stops as soon as the drilling increases
+         the value compared with the reference sign is -1 for a negative and +1 for a positive excess, however written
+  R05.6  nothing the search constructors compute from a stored parameter (the first candidate list) goes stale when a
+         method replaces that attribute (ghverif/derived.py)
   R05.4  sizing tolerances: GHE.size asks solve_root for abs_tol, rel_tol <= 1e-6 and they reach brentq
 """
 from __future__ import annotations
